@@ -70,6 +70,12 @@ Init0(cfg) == [a |-> R(cfg.a0), b |-> R(cfg.b0), kap |-> R(cfg.k0), lam |-> [i \
                lr |-> <<cfg.lrn, cfg.lrd>>, k |-> 0, sched |-> 0]
 RECURSIVE After(_, _)
 After(cfg, n) == IF n = 0 THEN Init0(cfg) ELSE Step(cfg, After(cfg, n - 1))
+\* a second fit of the SAME Solver with a fresh Trainer: the learnables persist; optimizer, scheduler and the iteration index start again
+Restart(cfg, st) == [st EXCEPT !.k = 0, !.sched = 0, !.lr = <<cfg.lrn, cfg.lrd>>, !.va = R(0), !.vb = R(0), !.vk = R(0),
+                               !.vl = [i \in DOMAIN st.vl |-> R(0)]]
+RECURSIVE AfterR(_, _)
+AfterR(cfg, n) == IF n <= cfg.N THEN After(cfg, n)
+                  ELSE Step(cfg, IF n = cfg.N + 1 THEN Restart(cfg, After(cfg, cfg.N)) ELSE AfterR(cfg, n - 1))
 StateFits(st) == Fits(st.a) /\ Fits(st.b) /\ Fits(st.kap) /\ Fits(st.va) /\ Fits(st.vb) /\ Fits(st.vk)
                  /\ \A i \in DOMAIN st.lam : Fits(st.lam[i]) /\ Fits(st.vl[i])
 \* the learnable part (what C07 compares after every step)
